@@ -1242,8 +1242,8 @@ def full_like(array, fill_value, highlevel=True, behavior=None, dtype=None):
 
     out = ak._util.recursively_apply(layout, getfunction, pass_depth=False)
     if dtype is not None:
-        out = strings_astype(out, dtype)
-        out = values_astype(out, dtype)
+        out = strings_astype(out, dtype, highlevel=False)
+        out = values_astype(out, dtype, highlevel=False)
     return ak._util.maybe_wrap_like(out, array, behavior, highlevel)
 
 
